@@ -432,7 +432,7 @@ func codecSuite(seed uint64, tier, outDir string) (*core.Result, error) {
 	phase("report", func() { c.reports(40 * scale) })
 	phase("authorization", func() { c.auths(30 * scale) })
 	phase("registration", func() { c.registrations(10 * scale) })
-	phase("authorized server", func() { c.aservers(20 * scale) })
+	phase("authorized server", func() { c.aservers(20 * scale); c.aserverDistinct() })
 	phase("migration", func() { c.migrations(8 * scale) })
 	if err := c.flush(fmt.Sprintf("cases_codec_fixed_%d", c.files)); err != nil {
 		return nil, err
@@ -447,7 +447,7 @@ func codecSuite(seed uint64, tier, outDir string) (*core.Result, error) {
 	phase("signatures", func() { c.crypto(scale) })
 	res.Required = append(res.Required,
 		"report.enc", "report.dec.len80", "report.dec.wrong-length", "auth.enc", "auth.dec.len148", "auth.dec.wrong-length", "auth.json",
-		"reg.signing", "aserver.enc.loc<=255", "aserver.enc.loc>255", "migration.enc", "smap.enc", "smap.enc.too-long", "smap.dec.ok", "smap.dec.refused",
+		"reg.signing", "aserver.enc.loc<=255", "aserver.enc.loc>255", "aserver.distinct-locations", "migration.enc", "smap.enc", "smap.enc.too-long", "smap.dec.ok", "smap.dec.refused",
 		"smap.loc=0", "smap.loc=1", "smap.loc=255", "smap.loc=256", "smap.loc=65535",
 		"stats.enc", "stats.negative-zero", "stream.records=0", "stream.records=1", "stream.records=2", "stream.records=3", "stream.cut.refused", "stream.cut.ok", "stream.hostile-count",
 		"golden", "sign.deterministic", "flip.message", "flip.signature", "flip.malleated-twin", "flip.key")
@@ -736,6 +736,27 @@ func (c *codecRun) aservers(n int) {
 		}
 		c.add(class, map[string]interface{}{"loc_len": len(as.Location)}, hex.EncodeToString(ser), true,
 			fmt.Sprintf("CAServer %s %s %s", ccGAServer(as), ccHexLit(ser), ccHexLit(sb)))
+	}
+}
+
+// aserverDistinct: "distinct values never share signing bytes" for authorized servers whose locations agree
+// on a long prefix -- the first 255 bytes, the first 256, all but the last byte -- and differ behind it
+// (every byte of the location is signed, whatever its length), and for the serialized form
+func (c *codecRun) aserverDistinct() {
+	r := c.rng.Fork()
+	for _, L := range []int{254, 255, 256, 300, 511, 600} {
+		a := ccGenAServer(r, 10)
+		base := strings.Repeat("k", L)
+		b := a
+		a.Location, b.Location = base+"a", base+"b"
+		c.res.Count("aserver.distinct-locations")
+		c.res.Case(map[string]interface{}{"class": "aserver.distinct-locations", "common_prefix": L}, fmt.Sprint("asd", L), true)
+		if bytes.Equal(a.SigningBytes(), b.SigningBytes()) {
+			c.res.Fail(fmt.Sprintf("two authorized servers whose locations differ only behind byte %d share their signing bytes: a GCA signature for one verifies for the other", L), "aserver-signing-collision", map[string]interface{}{"common_prefix": L})
+		}
+		if bytes.Equal(a.Serialize(), b.Serialize()) {
+			c.res.Fail(fmt.Sprintf("two authorized servers whose locations differ only behind byte %d serialize to the same bytes", L), "aserver-serialize-collision", map[string]interface{}{"common_prefix": L})
+		}
 	}
 }
 
